@@ -17,6 +17,7 @@ Faults(n, pool, fd) ==
    {NoFault}
    \cup {[k |-> "read", at |-> j, pre |-> FALSE] : j \in 1..(n + 1)}
    \cup (IF fd THEN {} ELSE {[k |-> "dclose", at |-> 0, pre |-> FALSE]})
+   \cup {[k |-> "end", at |-> 0, pre |-> FALSE]}
    \cup {[k |-> "parse", at |-> j, pre |-> FALSE] : j \in 1..n}
    \cup (IF n >= 1 THEN {[k |-> "parse", at |-> 1, pre |-> TRUE]} ELSE {})
    \cup (IF pool THEN {[k |-> "work", at |-> j, pre |-> FALSE] : j \in 1..n} ELSE {})
@@ -74,6 +75,19 @@ RealTextConfigs ==
    {[n |-> n, nest |-> nest, fault |-> NoFault, maxIn |-> 2, maxOut |-> 2, pool |-> FALSE, fd |-> FALSE, fdstop |-> TRUE, hdrblk |-> FALSE,
      skip |-> sk, script |-> s] :
       nest \in [1..n -> {1, 2}], sk \in SUBSET (1..n), s \in RealScripts}
+   : n \in Ns}
+(* a real XML document arriving through the input queue in n pieces (piece m holds the objects of block m): read / close
+   failures of the decompressor and a document that ends too early; only scripts that read with "readall" (the real
+   parser decides itself how many buffers it makes of the data) *)
+XmlQScripts == {<<"readall">>, <<"header", "readall", "read">>, <<"readall", "read", "header">>, <<"readall", "close", "read">>,
+                <<"header">>, <<"readall", "readall">>, <<"header", "readall", "close", "header">>}
+XmlQFaults(n) == {NoFault, [k |-> "dclose", at |-> 0, pre |-> FALSE], [k |-> "end", at |-> 0, pre |-> FALSE]}
+                 \cup {[k |-> "read", at |-> j, pre |-> FALSE] : j \in 1..(n + 1)}
+RealXmlQConfigs ==
+  UNION {
+   {[n |-> n, nest |-> nest, fault |-> f, maxIn |-> 2, maxOut |-> 2, pool |-> FALSE, fd |-> FALSE, fdstop |-> TRUE, hdrblk |-> FALSE,
+     skip |-> sk, script |-> s] :
+      nest \in [1..n -> {1}], f \in XmlQFaults(n), sk \in SUBSET (1..n), s \in XmlQScripts}
    : n \in Ns}
 NoConfigs == {}
 InitOnly == Init /\ [][FALSE]_vars
